@@ -12,6 +12,7 @@ def run(F, G, tier, seed):
     globalstate.run_globals(chk, F, G, CG)
     globalstate.run_startcond(chk, F, CG, L)
     globalstate.run_buffer(chk, F, CG)
+    globalstate.run_errno(chk, F)
     chk.assume("the flex and bison skeletons initialise their own variables as documented (yychar, yynerrs and the "
                "parser stacks at yyparse entry; the scanner's buffer state on yy_switch_to_buffer)")
     chk.assume("objects with automatic or dynamic storage (builders, documents) are created by the caller per parse; "
